@@ -101,6 +101,13 @@ def loglike(ix, R, tag, site, name, thorough=False):
             vec = defs[-1].value if defs else vec
         if not index_vector(f, vec, p0):
             why.append('parameter vector is %s' % unparse(vec))
+        for e, what in ((r, 'the result is returned'), (cs, 'chisq_trans is called')):
+            if e.guards or e.loops:
+                why.append('%s conditionally (%s)' % (what, [g.text() for g in e.guards]))
+        for e in fl.of('assign'):
+            if e.guards and e.name in {n.id for n in ast.walk(cs.node) if isinstance(n, ast.Name)} | \
+                    {n.id for n in ast.walk(r.node) if isinstance(n, ast.Name)}:
+                why.append('%s is assigned conditionally' % e.name)
         R.check('1.%s' % tag, 'ALG', s, stmt, not why, key='; '.join(why), detail='; '.join(why),
                 loc=f.loc(r.node), extracted=fmt(fl, v))
 
@@ -153,6 +160,17 @@ def prior(ix, R, tag, site, name, known=False):
                 elif not rets and dest is not None:
                     if not fl.tab.equal(dest, p0):
                         why.append('nothing returned and the input cube is not updated in place')
+                for x in rets + sts + apps:
+                    if x.guards or (x in rets and x.loops):
+                        why.append('%s runs conditionally' % unparse(x.node)[:40])
+                if rets and dest is not None and not fl.tab.equal(dest, p0):
+                    # what is returned is the container that was filled
+                    rv = rets[0].value
+                    ra = atom_of(fl, rv)
+                    if ra is not None and ra.head == 'call' and ra.extra[0] == 'fn:tuple':
+                        rv = ra.args[0]
+                    if not fl.tab.equal(rv, dest):
+                        why.append('returns %s, not the container the samples were put in' % fmt(fl, rets[0].value)[:60])
         if known and why:
             R.fail('2.%s' % tag, 'ARG', s, stmt, 'prior callback bypasses fitting_priors',
                    '; '.join(why), f.loc())
@@ -183,6 +201,8 @@ def handoff(ix, R, tag, site, ll, pr, how):
         nd = arg(nd_pos, nd_kw)
         if nd is None or not fl.tab.equal(nd, spec(fl, 'len(self.fitting_parameters)')):
             why.append('ndim is %s' % fmt(fl, nd))
+        if e.guards or e.loops:
+            why.append('the sampler is started conditionally (%s)' % [g.text() for g in e.guards])
         R.check('2.%s.handoff' % tag, 'ARG', site, stmt, not why, key='; '.join(why),
                 detail='; '.join(why), loc=f.loc(e.node))
 
@@ -226,6 +246,7 @@ def chisq(ix, R):
     for chi in (chi_n, chi_s):
         for w in (chi, spec(fl, '_guard(chi == 0, nan, chi)', {'chi': chi, 'nan': spec(fl, 'np.nan')})):
             okf = okf or fl.tab.equal(r.value, w)
+    okf = okf and not [g for g in r.guards if not g.early] and not r.loops
     R.check('3.chi', 'ALG', site, 'chi2 = sum(((observed - binned model)/sigma)^2), binned model = bin_model(...)[1]',
             okf, key='returns %s' % fmt(fl, r.value), detail='returns %s' % fmt(fl, r.value),
             loc=f.loc(r.node), extracted=fmt(fl, r.value))
@@ -342,6 +363,13 @@ def update_model(ix, R):
                               not (isinstance(x.node.func, ast.Name))]
                     if others:
                         why.append('other calls in the loop: %s' % [unparse(x.node)[:40] for x in others])
+        lenchk = spec(fl, 'len(p) != len(self.fitting_parameters)', pe)
+        lenchk_c, _ = fl.tab.canon_cond(lenchk)
+        for e in pr:
+            extra = [g for g in e.guards if not (g.early and g.rf is not None and (
+                fl.tab.equal(g.rf, lenchk) or fl.tab.equal(fl.tab.canon_cond(g.rf)[0], lenchk_c)))]
+            if extra:
+                why.append('the parameter is set only under %s' % [g.text() for g in extra])
         rs = fl.of('raise')
         if not rs or not any(fl.tab.equal(g.rf, spec(fl, 'len(p) != len(self.fitting_parameters)', pe))
                              for r_ in rs for g in r_.guards):
@@ -516,4 +544,15 @@ EQUIVALENTS = [
     ('nestle-reorder', NE, 'loglike = -np.sum(np.log(datastd * sqrtpi)) - 0.5 * chi_t', 'loglike = -0.5 * chi_t - np.sum(np.log(sqrtpi * datastd))'),
     ('multinest-inline', MN, 'loglike = -np.sum(np.log(datastd * sqrtpi)) - 0.5 * chi_t', 'loglike = -np.sum(np.log(datastd * np.sqrt(2.0 * np.pi))) - chi_t / 2.0'),
     ('chisq-square', OP, 'res = np.nansum(res * res)', 'res = np.nansum(res ** 2)'),
+]
+UNCONDITIONAL = [
+    (OP, 'fset(priors.prior(value))'),
+    (OP, 'return res$'),
+    (NE, 'return loglike'),
+    (NE, 'return tuple(cube)'),
+    (NE, 'cube.append(prior.sample(theta[idx]))'),
+    (NE, 'res = nestle.sample('),
+    (MN, 'return loglike'),
+    (PC, 'return (loglike, [0.0])'),
+    (PC, 'return cube'),
 ]
